@@ -239,3 +239,25 @@ func IsPanicHelper(f *ssa.Function) bool {
 	}
 	return hasPanic
 }
+
+// RetVal: the value a return statement hands back as its idx-th result.  In a function with defers go/ssa spills
+// the results into slots - `store slot <- v; rundefers; return *slot` - so the operand of the Return is a load
+// that merges every exit; the value returned by THIS exit is the last store to the slot in the returning block.
+func RetVal(ret *ssa.Return, idx int) ssa.Value {
+	v := ret.Results[idx]
+	ld, ok := v.(*ssa.UnOp)
+	if !ok || ld.Op != token.MUL {
+		return v
+	}
+	slot, ok := ld.X.(*ssa.Alloc)
+	if !ok {
+		return v
+	}
+	b := ret.Block()
+	for i := len(b.Instrs) - 1; i >= 0; i-- {
+		if st, ok := b.Instrs[i].(*ssa.Store); ok && st.Addr == ssa.Value(slot) {
+			return st.Val
+		}
+	}
+	return v
+}
